@@ -26,9 +26,43 @@ Definition view_okb (o s : view) : bool :=
   seteq Nat.eqb (v_iter o) (v_iter s) && list_eqb oval_eqb (v_attr o) (v_attr s) &&
   oval_eqb (v_default o) (v_default s).
 
-Record dcase := DC { d_strategy : bool; d_ks : list key; d_vs : list val; d_ops : list op; d_obs : list view }.
+(* a lookup, and an assignment a MultiKeyDict rejects, must change nothing: every observable of the
+   implementation after the step is what it was before the step (compared directly, observation
+   against observation; the "raised" flag belongs to the step itself) *)
+Definition same_state (a b : view) : bool :=
+  list_eqb oval_eqb (v_get a) (v_get b) &&
+  list_eqb otup_eqb (v_k2k a) (v_k2k b) && list_eqb tup_eqb (v_v2k a) (v_v2k b) &&
+  Nat.eqb (v_len a) (v_len b) && list_eqb tup_eqb (v_keys a) (v_keys b) &&
+  list_eqb Nat.eqb (v_iter a) (v_iter b) && list_eqb oval_eqb (v_attr a) (v_attr b) &&
+  oval_eqb (v_default a) (v_default b).
+Definition readonly (strategy : bool) (o : op) : bool :=
+  match o with OObs _ => true | OSetBad _ => negb strategy | _ => false end.
+Fixpoint pure_ok (strategy : bool) (prev : view) (ops : list op) (obs : list view) : bool :=
+  match ops, obs with
+  | o :: r, v :: r' => (if readonly strategy o then same_state prev v else true) && pure_ok strategy v r r'
+  | _, _ => true
+  end.
+
+(* states reached by the constructor argument (MultiKeyDict(dict): one assignment per item) *)
+Definition mstate_after (ops : list op) : mkd := fold_left (fun d o => fst (mstep d o)) ops empty.
+Definition sstate_after (ops : list op) : sd := fold_left (fun s o => fst (sstep s o)) ops sd_empty.
+Definition aspec_after (strategy : bool) (ops : list op) : astate :=
+  fold_left (fun a o => fst (astep strategy a o)) ops ainit.
+
+(* d_init: assignments done by the constructor (no view in between); d_obs0: the view before the
+   first operation of d_ops; d_obs: the view after every operation *)
+Record dcase := DC { d_strategy : bool; d_ks : list key; d_vs : list val; d_init : list op;
+                     d_obs0 : view; d_ops : list op; d_obs : list view }.
 Definition corr_dict (c : dcase) : bool :=
-  list_eqb view_eqb (d_obs c)
-    (if d_strategy c then srun (d_ks c) (d_vs c) sd_empty (d_ops c) else mrun (d_ks c) (d_vs c) empty (d_ops c)).
+  if d_strategy c
+  then let s0 := sstate_after (d_init c) in
+       view_eqb (d_obs0 c) (sview (d_ks c) (d_vs c) s0 false) &&
+       list_eqb view_eqb (d_obs c) (srun (d_ks c) (d_vs c) s0 (d_ops c))
+  else let d0 := mstate_after (d_init c) in
+       view_eqb (d_obs0 c) (mview (d_ks c) (d_vs c) d0 false) &&
+       list_eqb view_eqb (d_obs c) (mrun (d_ks c) (d_vs c) d0 (d_ops c)).
 Definition holds_dict (c : dcase) : bool :=
-  list_eqb view_okb (d_obs c) (arun (d_strategy c) (d_ks c) (d_vs c) ainit (d_ops c)).
+  let a0 := aspec_after (d_strategy c) (d_init c) in
+  view_okb (d_obs0 c) (aview (d_strategy c) (d_ks c) (d_vs c) a0 false) &&
+  list_eqb view_okb (d_obs c) (arun (d_strategy c) (d_ks c) (d_vs c) a0 (d_ops c)) &&
+  pure_ok (d_strategy c) (d_obs0 c) (d_ops c) (d_obs c).
